@@ -59,6 +59,39 @@ func main() {
 		for _, id := range ids {
 			fmt.Printf("%s\t%s\n", id, registry[id].Title)
 		}
+	case "describe":
+		// markdown description of every rule set, generated from the registry
+		var ids []string
+		for id := range registry {
+			ids = append(ids, id)
+		}
+		sort.Strings(ids)
+		for _, id := range ids {
+			pr := registry[id]
+			fmt.Printf("### %s - %s\n\n", id, pr.Title)
+			fmt.Printf("*Technique.* %s.\n\n*Decides.*\n\n", pr.Technique)
+			for _, part := range strings.Split(pr.Decides, ". R") {
+				part = strings.TrimSpace(part)
+				if part == "" {
+					continue
+				}
+				if !strings.HasPrefix(part, "R") {
+					part = "R" + part
+				}
+				fmt.Printf("* %s\n", strings.TrimSuffix(part, "."))
+			}
+			fmt.Printf("\n*Not decided.*\n\n")
+			for _, nd := range pr.NotDecided {
+				fmt.Printf("* %s\n", nd)
+			}
+			if len(pr.Assumptions) > 0 {
+				fmt.Printf("\n*Assumptions.*\n\n")
+				for _, a := range pr.Assumptions {
+					fmt.Printf("* %s\n", a)
+				}
+			}
+			fmt.Println()
+		}
 	case "check":
 		os.Exit(cmdCheck(os.Args[2:]))
 	case "replay":
